@@ -54,6 +54,8 @@ Unit(
     region="body:for:self.metamodel.user_classes.values()",
     props=["C14", "C15"],
     params={"self": "obj:TextXModelParser", "user_class": "obj"},
+    calls={"self._replace_user_attr_methods_for_class":
+           "model.TextXModelParser._replace_user_attr_methods_for_class"},
     requires=["hasattr(user_class, '_tx_obj_attrs')", "distinct(self, user_class)",
               "implies('_tx_instrumented' in user_class.__dict__, is_int(user_class._tx_instrumented))"],
     ensures=[
@@ -133,3 +135,270 @@ Unit(
     ensures=[("returns-nothing", "result is None")],
     canary="result is not None",
 )
+
+
+# --------------------------------------------------------------------------
+# _end_model_construction: the collected attributes of every user object are handed to its __init__
+# exactly once, restricted to the rule's attributes (plus parent), after the instrumentation was
+# switched off; the per-object storage entry is removed
+# --------------------------------------------------------------------------
+STORE = "cls(obj)._tx_obj_attrs"
+COLLECTED = f"old({STORE}[id(obj)])"
+KW = "as_dict(evn('user_init', 0).star)"
+
+Unit(
+    "model._end_model_construction.per-object",
+    target="textx/model.py::_end_model_construction",
+    region="body:for:the_parser._user_class_inst",
+    props=["C14", "C15"],
+    params={"obj": "obj", "the_parser": "obj:TextXModelParser"},
+    requires=["addr(obj) >= 0",  # a model object, not a class or function object
+              f"id(obj) in {STORE}",
+              f"is_ref({STORE}[id(obj)])", "distinct(obj, the_parser)"],
+    calls={
+        "obj.__init__": Ext("user_init", note="the user class's own __init__ (arbitrary user code)"),
+        "suppress": Ext("suppress", pure=True, raises=None),
+        "the_parser.dprint": Ext("dprint", pure=True, raises=None, returns="none"),
+        "traceback.print_exc": Ext("print_exc", pure=True, raises=None, returns="none"),
+    },
+    locals={"attrs": "dict"},
+    # "first try to apply attributes directly": plain stores on the object itself, failures suppressed
+    loops={"for:attrs.items()": Loop(modifies=["obj.*"], inv=[])},
+    ensures=[
+        ("C14-init-called-exactly-once", "n_calls('user_init') == 1"),
+        ("C14-init-receives-exactly-the-rule-attributes-and-parent",
+         f"forall_val(lambda k: (k in {KW}) == (before(evn('user_init', 0), k in as_dict({COLLECTED}))"
+         f" and (before(evn('user_init', 0), k in cls(obj)._tx_attrs) or k == 'parent')))"
+         f" and forall_val(lambda k: implies(k in {KW}, {KW}[k] == before(evn('user_init', 0), as_dict({COLLECTED})[k])))"),
+        ("C15-per-object-storage-entry-is-removed",
+         f"before(evn('user_init', 0), not (id(obj) in {STORE}))"),
+    ],
+    raises={"*": [
+        ("C15-entry-removed-even-when-init-fails",
+         f"implies(n_calls('user_init') == 1, before(evn('user_init', 0), not (id(obj) in {STORE})))"),
+    ]},
+    canary="n_calls('user_init') == 0",
+)
+
+INST = "as_list(old(model._tx_parser._user_class_inst))"
+
+Unit(
+    "model._end_model_construction",
+    target="textx/model.py::_end_model_construction",
+    props=["C14", "C15"],
+    params={"model": "obj"},
+    requires=["hasattr(model, '_tx_reference_resolver')",
+              "implies(hasattr(model, '_tx_parser'), is_list(model._tx_parser._user_class_inst))"],
+    calls={
+        "the_parser._restore_user_attr_methods": Ext("restore", raises=None, returns="none",
+                                                     note="verified: model.TextXModelParser._restore_user_attr_methods"),
+    },
+    modifies=["*"],
+    ext_protect=["model._tx_parser", "model._tx_parser._user_class_inst", "list(model._tx_parser._user_class_inst)"],
+    loops={"for:the_parser._user_class_inst": Loop(
+        modifies=["*"], inv=[], step=False, body_unit="model._end_model_construction.per-object",
+        protect=["model._tx_parser", "model._tx_parser._user_class_inst", "list(model._tx_parser._user_class_inst)"])},
+    ensures=[
+        ("C14-marker-removed-and-instrumentation-switched-off-before-any-init",
+         "implies(old(hasattr(model, '_tx_parser')), n_calls('restore') == 1 and evpos('restore', 0) == 0"
+         " and before(evn('restore', 0), not ('_tx_reference_resolver' in model.__dict__)))"
+         " and implies(not old(hasattr(model, '_tx_parser')), not ('_tx_reference_resolver' in model.__dict__))"),
+    ],
+    # (exceptional exits of the loop - a user __init__ that raises - are covered per object by the region unit
+    # above; what is then left in the storage of the objects not yet reached is a whole-loop question that needs
+    # the data invariant of _user_class_inst to survive arbitrary user code: not provable, see the battery and the
+    # known findings)
+    canary="n_calls('restore') == 0",
+)
+
+
+# --------------------------------------------------------------------------
+# bounded battery / native replay (never counted as proved): user classes through the public API.
+# One violation label per scenario, so that a known finding names exactly one of them.
+# --------------------------------------------------------------------------
+def _c14_scenarios():
+    """{label: [what failed]} - empty lists when the scenario behaves as the statement says"""
+    import gc
+    import os
+    import shutil
+    import tempfile
+    import weakref
+
+    import textx.scoping.providers as sp
+    from textx import metamodel_from_str
+    from textx.exceptions import TextXError
+
+    grammar = ("Model: imports*=Import things+=Thing; Import: 'import' importURI=STRING;"
+               " Thing: 'thing' name=ID ('=' value=INT)? ('->' ref=[Thing])? ('{' parts+=Part '}')?;"
+               " Part: 'part' name=ID;")
+    out = {}
+
+    def make(fail_on=None, slots=False):
+        calls = []
+
+        class Thing:
+            def __init__(self, **kw):
+                calls.append(("Thing", dict(kw)))
+                if fail_on is not None and kw.get("name") == fail_on:
+                    raise TypeError("constructor says no")
+                for k, v in kw.items():
+                    setattr(self, k, v)
+
+        class Part:
+            def __init__(self, parent=None, name=None):
+                calls.append(("Part", {"parent": parent, "name": name}))
+                self.parent, self.name = parent, name
+
+        before = {c: dict(c.__dict__) for c in (Thing, Part)}
+        mm = metamodel_from_str(grammar, classes=[Thing, Part])
+        mm.register_scope_providers({"*.*": sp.PlainNameImportURI()})
+        return mm, Thing, Part, calls, before
+
+    def class_state(label, classes, before):
+        bad = []
+        for c in classes:
+            d = c.__dict__
+            for k in ("_tx_instrumented", "_tx_real_setattr", "_tx_real_delattr", "_tx_real_getattribute"):
+                if k in d:
+                    bad.append(f"{c.__name__}.{k} is still set")
+            for k in ("__setattr__", "__delattr__", "__getattribute__"):
+                if d.get(k) is not before[c].get(k):
+                    bad.append(f"{c.__name__}.{k} is not the original")
+            if d.get("_tx_obj_attrs"):
+                bad.append(f"{c.__name__}._tx_obj_attrs keeps {len(d['_tx_obj_attrs'])} per-object entries")
+        return bad
+
+    # 1. successful single-file load
+    mm, Thing, Part, calls, before = make()
+    m = mm.model_from_str("thing a = 1 -> b { part p part q } thing b -> a")
+    bad = []
+    tcalls = [kw for n, kw in calls if n == "Thing"]
+    if len(tcalls) != 2 or len([1 for n, _ in calls if n == "Part"]) != 2:
+        bad.append(f"__init__ calls: {[(n, sorted(kw)) for n, kw in calls]}")
+    for kw in tcalls:
+        if set(kw) != {"name", "value", "ref", "parts", "parent"}:
+            bad.append(f"Thing.__init__ got {sorted(kw)}, the rule has name/value/ref/parts (+ parent)")
+        if kw.get("ref") is not None and not isinstance(kw["ref"], Thing):
+            bad.append(f"Thing.__init__ got an unresolved reference: {kw['ref']!r}")
+    if m.things[0].ref is not m.things[1] or m.things[0].parts[0].parent is not m.things[0]:
+        bad.append("objects are not linked after the load")
+    out["success-single-file"] = bad + class_state("ok", (Thing, Part), before)
+
+    # 2.-5. failing single-file loads
+    for label, text, fail_on, proc in (
+            ("failure-syntax-error", "thing a thing", None, None),
+            ("failure-unknown-reference", "thing a -> zz { part p }", None, None),
+            ("failure-init-raises-on-the-second-of-three", "thing a thing b thing c", "b", None),
+            ("failure-object-processor-raises", "thing a thing b", None, "b")):
+        mm, Thing, Part, calls, before = make(fail_on=fail_on)
+        if proc:
+            def p(t, _n=proc):
+                if t.name == _n:
+                    raise TextXError("processor says no")
+            mm.register_obj_processors({"Thing": p})
+        bad = []
+        import contextlib
+        import io
+
+        try:
+            with contextlib.redirect_stderr(io.StringIO()), contextlib.redirect_stdout(io.StringIO()):
+                # (textX prints the constructor's traceback)
+                mm.model_from_str(text)
+            bad.append("the load did not fail")
+        except Exception:  # noqa: BLE001
+            pass
+        gc.collect()
+        bad += class_state(label, (Thing, Part), before)
+        # a later load with the same metamodel gives the same result as a fresh one
+        try:
+            again = mm.model_from_str("thing x -> y thing y")
+            if again.things[0].ref is not again.things[1]:
+                bad.append("load after the failure is wrong")
+        except Exception as e:  # noqa: BLE001
+            if not fail_on:
+                bad.append(f"load after the failure fails: {type(e).__name__}: {e}")
+        out[label] = bad
+
+    # 6. failing multi-file load: the imported file is fine, the main file has an unknown reference
+    d = tempfile.mkdtemp(prefix="txvc-c14-")
+    try:
+        with open(os.path.join(d, "lib.t"), "w") as f:
+            f.write("thing l1 thing l2 -> l1\n")
+        with open(os.path.join(d, "main.t"), "w") as f:
+            f.write('import "lib.t"\nthing m1 -> nowhere\n')
+        mm, Thing, Part, calls, before = make()
+        bad = []
+        try:
+            mm.model_from_file(os.path.join(d, "main.t"))
+            bad.append("the load did not fail")
+        except Exception:  # noqa: BLE001
+            pass
+        gc.collect()
+        out["failure-multi-file-unknown-reference-in-main"] = bad + class_state("mf", (Thing, Part), before)
+        # 7. successful multi-file load
+        with open(os.path.join(d, "main.t"), "w") as f:
+            f.write('import "lib.t"\nthing m1 -> l2\n')
+        mm, Thing, Part, calls, before = make()
+        m = mm.model_from_file(os.path.join(d, "main.t"))
+        bad = []
+        if len([1 for n, _ in calls if n == "Thing"]) != 3:
+            bad.append(f"{len(calls)} __init__ calls for 3 objects")
+        out["success-multi-file"] = bad + class_state("mfok", (Thing, Part), before)
+    finally:
+        shutil.rmtree(d, ignore_errors=True)
+    return out
+
+
+from txvc.props import extra, replay_for  # noqa: E402
+
+
+def _user_class_extra(pid):
+    def run(tier, seed):
+        sc = _c14_scenarios()
+        res = {"name": "model.user-classes.battery", "backend": "native run of the real loader (bounded stand-in)",
+               "obligations": 0, "discharged": 0, "bounded": True,
+               "bound": f"{len(sc)} scenarios: successful and failing single- and multi-file loads with two user classes",
+               "cases": len(sc), "violations": [],
+               "detail": "__init__ once per object with exactly the rule attributes (+parent), references resolved; "
+                         "after success AND failure the classes carry their original attribute methods and no "
+                         "per-object storage"}
+        for label, bad in sc.items():
+            if bad:
+                res["violations"].append({"unit": "model.user-classes.battery", "kind": "BOUNDED", "label": label,
+                                          "prop": pid, "result": "refuted", "text": "; ".join(bad[:4]),
+                                          "where": "battery", "path": [], "model": {"failures": bad[:8]},
+                                          "native": True, "time": 0, "reason": ""})
+        return res
+    run.__name__ = "user_classes_battery_" + pid
+    return run
+
+
+extra("C14")(_user_class_extra("C14"))
+extra("C15")(_user_class_extra("C15"))
+
+
+def _replay_c14(model, rec):
+    sc = _c14_scenarios()
+    bad = [f"{k}: {'; '.join(v[:3])}" for k, v in sc.items() if v]
+    return bool(bad), "\n  ".join(bad) or "user-class battery passes"
+
+
+for _u in ("model.user-classes.battery", "model.TextXModelParser._replace_user_attr_methods_for_class",
+           "model.TextXModelParser._replace_user_attr_methods.per-class",
+           "model.TextXModelParser._replace_user_attr_methods",
+           "model.TextXModelParser._restore_user_attr_methods.per-class",
+           "model.TextXModelParser._restore_user_attr_methods",
+           "model._end_model_construction.per-object", "model._end_model_construction"):
+    replay_for(_u)(_replay_c14)
+
+
+# C15 "nothing of the partial model stays reachable from textX": besides the classes (above) the only
+# long-lived roots are the model repositories - the clean-up chain of contracts/c18.py serves C15 too
+from txvc.contracts import REGISTRY as _REG  # noqa: E402
+
+from . import c18  # noqa: E402,F401
+
+for _u in ("model.main-model-phase", "model.parse_tree_to_objgraph",
+           "model._remove_all_affected_models_in_construction", "metamodel._call_model_processors"):
+    if "C15" not in _REG[_u].props:
+        _REG[_u].props.append("C15")
